@@ -31,6 +31,19 @@ Theorem C14_conforming : forall d e, In d configs -> In e all_props ->
 Proof. exact conforming_props. Qed.
 Print Assumptions C14_conforming.
 
+(* in particular the entries that used to deviate and were repaired in /repo (function lengths of
+   Math.atan2 / Number.prototype.toString / toLocaleString, enumerable String indices, the time
+   value NaN of Date.prototype, [[Class]] "Error" of the NativeError prototypes) conform outright *)
+Theorem C14_repaired_entries_conform : forall d e, In d configs -> In e all_props ->
+  In (e_owner e, e_name e) repaired_props -> entry_fails e (observe d (e_owner e) (e_name e)) = [].
+Proof. exact repaired_props_conform. Qed.
+Print Assumptions C14_repaired_entries_conform.
+
+Theorem C14_repaired_objects_conform : forall d oe, In d configs -> In oe all_objs ->
+  In (oe_path oe) repaired_objs -> oentry_fails oe (find_obj d (oe_path oe)) = [].
+Proof. exact repaired_objs_conform. Qed.
+Print Assumptions C14_repaired_objects_conform.
+
 (* the standard objects themselves: typeof, [[Class]], [[Prototype]], [[Extensible]], primitive value *)
 Theorem C14_objects : forall d oe, In d configs -> In oe all_objs ->
   forall w, In w (oentry_fails oe (find_obj d (oe_path oe))) ->
